@@ -433,6 +433,10 @@ Proof.
   apply (cstart_sim g bs Hok).
 Qed.
 
+Lemma code_span_sim g bs : Forall (blk_ok g) bs ->
+  Rb bs (cstart (lleft bs)) (cstart (lright bs)) /\ Rb bs (cend (lleft bs)) (cend (lright bs)).
+Proof. intro H. split; [exact (cstart_sim g bs H)|exact (cend_sim g bs H)]. Qed.
+
 (* ------------------------------------------------------------------ the property-level statement *)
 (** Layout clause of C11 on the interpreter: if the root grammar matches the code span of the first
     list without unparsable sections, it matches the code span of the second list, again without
@@ -471,4 +475,151 @@ Proof.
   destruct (parse_root g (toks_of_list (lleft bs)) rx fuel s e),
            (parse_root g (toks_of_list (lright bs)) rx' fuel s' e'); cbn in Hsim; try contradiction; auto.
   split; [apply (clean_sim g _ _ _ Hsim)|apply (cview_sim g bs Hok); exact Hsim].
+Qed.
+
+(* ------------------------------------------------------------------ deciding the alignment of two lists *)
+Definition ptok_eqb (a b : ptok) : bool :=
+  Bool.eqb (p_code a) (p_code b) && Bool.eqb (p_meta a) (p_meta b) && (p_kind a =? p_kind b)
+  && list_eqb N.eqb (p_types a) (p_types b) && (p_upper a =? p_upper b) && (p_ftr a =? p_ftr b)
+  && opt_eqb N.eqb (p_fnw a) (p_fnw b).
+
+Lemma list_eqb_N_eq (a b : list N) : list_eqb N.eqb a b = true -> a = b.
+Proof.
+  revert b. induction a as [|x a IH]; destruct b as [|y b]; cbn; intro H; try discriminate; [reflexivity|].
+  apply andb_true_iff in H as [H1 H2]. apply N.eqb_eq in H1. rewrite (IH _ H2), H1. reflexivity.
+Qed.
+Lemma ptok_eqb_eq a b : ptok_eqb a b = true -> a = b.
+Proof.
+  unfold ptok_eqb. intro H. repeat (apply andb_true_iff in H as [H ?]).
+  destruct a as [c1 m1 k1 ty1 u1 f1 w1], b as [c2 m2 k2 ty2 u2 f2 w2]; cbn in *.
+  repeat match goal with
+         | H : Bool.eqb _ _ = true |- _ => apply Bool.eqb_prop in H
+         | H : (_ =? _) = true |- _ => apply N.eqb_eq in H
+         | H : list_eqb _ _ _ = true |- _ => apply list_eqb_N_eq in H
+         end.
+  subst. f_equal. destruct w1, w2; cbn in *; try discriminate; [|reflexivity].
+  match goal with H : (_ =? _) = true |- _ => apply N.eqb_eq in H; subst end. reflexivity.
+Qed.
+
+(** the maximal run of gap tokens at the head *)
+Fixpoint span_gap (l : list ptok) : list ptok * list ptok :=
+  match l with
+  | t :: r => if gapb t then let (w, r') := span_gap r in (t :: w, r') else ([], l)
+  | [] => ([], [])
+  end.
+Lemma span_gap_app l : fst (span_gap l) ++ snd (span_gap l) = l.
+Proof.
+  induction l as [|t l IH]; [reflexivity|]. cbn. destruct (gapb t); [|reflexivity].
+  destruct (span_gap l) as [w r]. cbn in *. rewrite IH. reflexivity.
+Qed.
+
+(** blocks from the two lists: equal significant tokens pair up, maximal gap runs pair up *)
+Fixpoint blocks_of (fuel : nat) (l l' : list ptok) : option (list blk) :=
+  match fuel with
+  | O => None
+  | S f =>
+      match l, l' with
+      | [], [] => Some []
+      | t :: r, t' :: r' =>
+          if sigb t then
+            if ptok_eqb t t' then option_map (cons (BSig t)) (blocks_of f r r') else None
+          else if sigb t' then None
+          else
+            let (w, rest) := span_gap l in
+            let (w', rest') := span_gap l' in
+            match rev w, rev w' with
+            | x :: wr, x' :: wr' => option_map (cons (BGap (rev wr) x (rev wr') x')) (blocks_of f rest rest')
+            | _, _ => None
+            end
+      | _, _ => None
+      end
+  end.
+
+Lemma blocks_of_sound f : forall l l' bs, blocks_of f l l' = Some bs -> lleft bs = l /\ lright bs = l'.
+Proof.
+  induction f as [|f IH]; intros l l' bs H; cbn [blocks_of] in H; [discriminate|].
+  destruct l as [|t r], l' as [|t' r']; try discriminate.
+  - inversion H; subst. split; reflexivity.
+  - destruct (sigb t).
+    + destruct (ptok_eqb t t') eqn:E; [|discriminate]. apply ptok_eqb_eq in E. subst t'.
+      destruct (blocks_of f r r') as [bs0|] eqn:E0; [|discriminate]. inversion H; subst.
+      destruct (IH _ _ _ E0) as [<- <-]. split; reflexivity.
+    + destruct (sigb t'); [discriminate|].
+      pose proof (span_gap_app (t :: r)) as S1. pose proof (span_gap_app (t' :: r')) as S2.
+      destruct (span_gap (t :: r)) as [w rest]. destruct (span_gap (t' :: r')) as [w' rest'].
+      cbn [fst snd] in S1, S2.
+      destruct (rev w) as [|x wr] eqn:Ew; [discriminate|]. destruct (rev w') as [|x' wr'] eqn:Ew'; [discriminate|].
+      destruct (blocks_of f rest rest') as [bs0|] eqn:E0; [|discriminate]. inversion H; subst bs.
+      destruct (IH _ _ _ E0) as [H1 H2].
+      assert (Hw : w = rev wr ++ [x]) by (rewrite <- (rev_involutive w), Ew; reflexivity).
+      assert (Hw' : w' = rev wr' ++ [x']) by (rewrite <- (rev_involutive w'), Ew'; reflexivity).
+      cbn [lleft lright flat_map bleft bright]. fold (lleft bs0) (lright bs0).
+      rewrite H1, H2, <- Hw, <- Hw', S1, S2. split; reflexivity.
+Qed.
+
+Definition blk_ok_b (g : grammar) (b : blk) : bool :=
+  match b with
+  | BSig t => sigb t
+  | BGap w x w' x' =>
+      forallb (fun t => gapb t && gap_ok_b g t) (w ++ [x]) && forallb (fun t => gapb t && gap_ok_b g t) (w' ++ [x'])
+      && Bool.eqb (wsn g x) (wsn g x')
+  end.
+Lemma blk_ok_b_ok g b : blk_ok_b g b = true -> blk_ok g b.
+Proof.
+  destruct b as [t|w x w' x']; cbn; [auto|]. intro H.
+  apply andb_true_iff in H as [H H3]. apply andb_true_iff in H as [H1 H2].
+  assert (Hf : forall l, forallb (fun t => gapb t && gap_ok_b g t) l = true -> Forall (okgap g) l).
+  { intros l Hl. rewrite forallb_forall in Hl. apply Forall_forall. intros t Ht.
+    specialize (Hl t Ht). apply andb_true_iff in Hl. exact Hl. }
+  split; [apply Hf; exact H1|]. split; [apply Hf; exact H2|]. apply Bool.eqb_prop. exact H3.
+Qed.
+
+(** [l'] is a layout variant of [l] the graph [g] cannot tell apart *)
+Definition layout_blocks (g : grammar) (l l' : list ptok) : option (list blk) :=
+  match blocks_of (S (length l + length l')) l l' with
+  | Some bs => if forallb (blk_ok_b g) bs then Some bs else None
+  | None => None
+  end.
+Definition layout_related_b (g : grammar) (l l' : list ptok) : bool := is_some (layout_blocks g l l').
+
+Lemma layout_blocks_sound g l l' bs : layout_blocks g l l' = Some bs ->
+  lleft bs = l /\ lright bs = l' /\ Forall (blk_ok g) bs.
+Proof.
+  unfold layout_blocks. destruct (blocks_of _ l l') as [bs0|] eqn:E; [|discriminate].
+  destruct (forallb (blk_ok_b g) bs0) eqn:Ef; [|discriminate]. intro H. inversion H; subst bs0.
+  destruct (blocks_of_sound _ _ _ _ E) as [H1 H2]. split; [exact H1|]. split; [exact H2|].
+  rewrite forallb_forall in Ef. apply Forall_forall. intros b Hb. apply blk_ok_b_ok. apply Ef. exact Hb.
+Qed.
+
+(* ------------------------------------------------------------------ regex oracles *)
+(** a regex parser sees one token: an oracle is a function of the regex and the token.  Tables that
+    record such an oracle on the two lists are compatible as soon as the oracle rejects gap tokens. *)
+Definition rx_records (orx : N -> ptok -> bool) (l : list ptok) (rx : list (N * N)) : Prop :=
+  forall rid i t, nth_error l (N.to_nat i) = Some t -> rxhit rid i rx = orx rid t.
+
+Lemma rx_compat_of_oracle orx bs rx rx' :
+  rx_records orx (lleft bs) rx -> rx_records orx (lright bs) rx' ->
+  (forall rid t, gapb t = true -> In t (lleft bs) \/ In t (lright bs) -> orx rid t = false) ->
+  rx_compat bs rx rx'.
+Proof.
+  intros H1 H2 Hg. split; [|split].
+  - intros rid p p' t _ E E' _. rewrite (H1 _ _ _ E), (H2 _ _ _ E'). reflexivity.
+  - intros rid p t E Hgap. rewrite (H1 _ _ _ E). apply Hg; [exact Hgap|left; eapply nth_error_In; exact E].
+  - intros rid p t E Hgap. rewrite (H2 _ _ _ E). apply Hg; [exact Hgap|right; eapply nth_error_In; exact E].
+Qed.
+
+(** the statement on plain token lists *)
+Theorem pem_layout_invariant_lists g l l' orx rx rx' fuel m :
+  gap_safe_b g = true -> layout_related_b g l l' = true ->
+  rx_records orx l rx -> rx_records orx l' rx' ->
+  (forall rid t, gapb t = true -> In t l \/ In t l' -> orx rid t = false) ->
+  parse_root g (toks_of_list l) rx fuel (cstart l) (cend l) = ROk m -> clean_b g m = true ->
+  exists m', parse_root g (toks_of_list l') rx' fuel (cstart l') (cend l') = ROk m'
+             /\ clean_b g m' = true /\ cview l' m' = cview l m.
+Proof.
+  intros Hs Hr H1 H2 Hg. unfold layout_related_b in Hr.
+  destruct (layout_blocks g l l') as [bs|] eqn:E; [|discriminate].
+  destruct (layout_blocks_sound _ _ _ _ E) as (<- & <- & Hok).
+  apply pem_layout_invariant; try assumption.
+  eapply rx_compat_of_oracle; eassumption.
 Qed.
